@@ -56,7 +56,7 @@ E0 = 10000.0            # site-energy offset (1/cm): ground state well outside t
 FREQ_CUTOFF_CM = 3000.0  # library constant; transition frequencies above are not claimed
 
 
-def _tol_rates(route):
+def _tol_rates(route, case=None):
     """RedfieldRateMatrix uses the FFT of the Hermitian extension of C(t), i.e. the
     trapezoid rule for the half-Fourier integral.  Euler-Maclaurin: the leading error of
     2 Re int_0^inf C(t) e^{iwt} dt is -(dt^2/6) Re[C'(0) + i w C(0)]; with Matsubara
@@ -68,7 +68,44 @@ def _tol_rates(route):
     returns it exactly and only the spline interpolation between frequency points
     remains: observed <= 2.8e-4, allowed 2e-3."""
     q = QTOL_RATES_SD if route == "sd" else QTOL_RATES
+    if route == "sd" and case is not None:
+        return lambda w, dt: q[0] + q[1] * w * dt + 2.0 * _zero_point_error(case, w)
     return lambda w, dt: q[0] + q[1] * w * dt
+
+
+def _zero_point_error(case, w):
+    """Route "sd" only.  get_FTCorrelationFunction cannot evaluate (1+coth(w/2kT))J(w) at
+    a grid point w = 0 and replaces it by the l'Hospital value 2kT J'(0) with J'(0) taken
+    as the central difference (J(h)-J(-h))/2h over the frequency step h = pi/(nt dt); for
+    the overdamped oscillator that is low by the factor 1/(1+(h tau)^2) (4 % for
+    h tau = 0.2).  The rate matrix interpolates the transformed function by a cubic spline,
+    which spreads the error of that one grid value over the neighbouring intervals.  This
+    is part of "the accuracy of the numerical half-Fourier transform": it is computed here
+    exactly for the case at hand (spline through the exact grid values vs. spline through
+    the values with the central-difference zero point, both evaluated at w) as the largest
+    relative change over the sites; the golden-rule rate is a positively weighted sum of
+    site terms, so the largest site-relative change bounds the change of the rate.
+    Whether the library takes that branch used to depend on a rounding accident of
+    ValueAxis.locate(0.0); the allowance is granted either way."""
+    from scipy.interpolate import UnivariateSpline
+    nt, dt = case["axis"]
+    h = numpy.pi / (nt * dt)
+    kt = GR.kBT(case["T"])
+    k = numpy.arange(-60, 61)
+    grid = k * h
+    out = 0.0
+    for (lam, tau) in _baths(case):
+        lam_i = lam * GR.CM2INT
+        exact = GR.ft_corfce(grid, lam_i, tau, case["T"])
+        pert = exact.copy()
+        jp = (GR.J_overdamped(h, lam_i, tau) - GR.J_overdamped(-h, lam_i, tau)) / (2.0 * h)
+        pert[60] = 2.0 * kt * float(jp)
+        s0 = UnivariateSpline(grid, exact, s=0)
+        s1 = UnivariateSpline(grid, pert, s=0)
+        c = float(s0(w))
+        if c > 0:
+            out = max(out, abs(float(s1(w)) - c) / c)
+    return out
 
 
 def _tol_tensor(route):
@@ -263,7 +300,7 @@ def eval_system(case):
                          {"up": up, "down": dn}))
     for (a, b) in down:
         golden("rates.golden", "redfield-rates/golden-rule/downhill", K[a + 1, b + 1],
-               a, b, _tol_rates(route), "K")
+               a, b, _tol_rates(route, case), "K")
 
     # ---- B: Redfield tensor, downhill population element in the eigenbasis -------
     troutes = [("ctor", None)]
